@@ -462,7 +462,8 @@ pub fn run_check(check: &Check, thorough: bool, seed: u64) -> i32 {
     });
     let evdir = format!("{}/evidence", verif_dir());
     let _ = std::fs::create_dir_all(&evdir);
-    std::fs::write(format!("{evdir}/{}.json", check.property), serde_json::to_string_pretty(&ev).unwrap()).expect("write evidence");
+    let suffix = std::env::var("ZKSIM_EVIDENCE_SUFFIX").unwrap_or_default();
+    std::fs::write(format!("{evdir}/{}{suffix}.json", check.property), serde_json::to_string_pretty(&ev).unwrap()).expect("write evidence");
     println!(
         "zksim: {} {tier}: {n_runs} runs, {steps} steps, {evals} evaluations, {} distinct cases, {} interleavings, {} violating runs, {:.1}s",
         check.property, cases.len(), scheds.len(), n_viol_runs, wall
